@@ -17,7 +17,7 @@ import femmio, gen, lua_post, meshgeom
 from femmio import UNIT_M
 from runner import Run
 
-TYPES = {"e": dict(area=1, volume=2, energy=0), "h": dict(area=1, volume=2), "m": dict(area=5, volume=10, energy=2, AJ=0, coenergy=17, current=7)}
+TYPES = {"e": dict(area=1, volume=2, energy=0), "h": dict(area=1, volume=2), "m": dict(area=5, volume=10, energy=2, AJ=0, coenergy=17, current=7, resistive_losses=4, total_losses=6)}
 # averages (not additive): asked of the real post-processor only to be compared with the integrand model
 AVERAGES = {"h": dict(avgT=0, avgF=3, avgG=4)}
 
@@ -91,7 +91,9 @@ def main(argv):
             if kind == "m":
                 for m in p.blockprops:
                     m.pop("H_c", None)
-                    m.pop("LamType", None); m.pop("LamFill", None); m.pop("Sigma", None)
+                    m.pop("LamType", None); m.pop("LamFill", None)
+                    if t % 2 == 0:
+                        m.pop("Sigma", None)       # every second magnetics problem keeps its conductivities: resistive losses are non-trivial
                 p.bdryprops = [b for b in p.bdryprops if b["type"] == 0]
                 for b in p.bdryprops:
                     b.update(A_0=0.0, A_1=0.0, A_2=0.0)
@@ -198,6 +200,8 @@ def main(argv):
                     sc = max(sum(abs(v) for v in per[name] if v is not None), 1e-300)
                     err = abs(got - want) / sc
                     stats["subsets"] += 1
+                    if name.endswith("losses") and abs(got) > 0:
+                        stats["nonzero_loss_integrals"] = stats.get("nonzero_loss_integrals", 0) + 1
                     stats["worst_additivity_error"] = max(stats["worst_additivity_error"], err)
                     if err > 1e-9:
                         # is it the selection (model) or the additivity (property) that fails?  try every subset
